@@ -171,7 +171,12 @@ impl QueueHandler for Handler {
 
 pub fn gen_case(seed: u64) -> Case {
     let mut rng = Rng::new(seed);
-    let style = rng.below(4);
+    let style = rng.below(5);
+    // style 4: a status-error storm - long runs of failing status reports (the whole query or one
+    // allocation's entry) while allocations are queued / running, with an occasional good report in
+    // between, so that the error thresholds (10 queued / 20 running) are actually crossed
+    let storm = style == 4;
+    let style = if storm { 1 } else { style };
     let nq = if style == 2 { 1 } else { rng.range(1, 2) as usize };
     let queues = (0..nq)
         .map(|_| QueueCfg {
@@ -183,8 +188,42 @@ pub fn gen_case(seed: u64) -> Case {
         })
         .collect();
     let n = rng.range(30, 120);
-    let mut acts = vec![Act::AddTasks(if style == 2 { rng.range(40, 80) as u32 } else { rng.range(0, 12) as u32 })];
-    for _ in 0..n {
+    let mut acts = vec![Act::AddTasks(if style == 2 { rng.range(40, 80) as u32 } else if storm { rng.range(4, 12) as u32 } else { rng.range(0, 12) as u32 })];
+    let storm_at = if storm { rng.range(8, 40) } else { u64::MAX };
+    for i in 0..n {
+        if i == storm_at {
+            // make sure something is queued and something runs, then let the reports fail
+            acts.push(Act::Tick);
+            acts.push(Act::Tick);
+            for _ in 0..rng.range(0, 3) {
+                acts.push(Act::Connect { alloc: rng.usize_below(64), unknown: false });
+            }
+            let whole_query = rng.chance(50, 100);
+            if whole_query {
+                acts.push(Act::StatusCallFails(true));
+            } else {
+                for _ in 0..rng.range(1, 3) {
+                    acts.push(Act::SetExt { alloc: rng.usize_below(64), ext: Ext::Error });
+                }
+            }
+            for _ in 0..rng.range(9, 32) {
+                acts.push(Act::Periodic);
+                match rng.below(12) {
+                    0 => acts.push(Act::Tick),
+                    1 => acts.push(Act::Advance(61)),
+                    2 if whole_query => {
+                        // one good report in between
+                        acts.push(Act::StatusCallFails(false));
+                        acts.push(Act::Periodic);
+                        acts.push(Act::StatusCallFails(true));
+                    }
+                    3 => acts.push(Act::Connect { alloc: rng.usize_below(64), unknown: false }),
+                    4 => acts.push(Act::Lose { worker: rng.usize_below(64), crashed: rng.chance(50, 100) }),
+                    _ => {}
+                }
+            }
+            acts.push(Act::StatusCallFails(false));
+        }
         let w: Vec<u32> = match style {
             // failure heavy
             0 => vec![30, 6, 14, 8, 2, 12, 8, 8, 3, 6, 2, 4, 1, 2, 1, 2],
@@ -840,6 +879,7 @@ pub async fn run_case(case: &Case) -> Rep {
                             }
                             if ended {
                                 rep.c("ended_by_status_errors");
+                                rep.c(if rank(&p.status) == 0 { "ended_by_status_errors.while_queued" } else { "ended_by_status_errors.while_running" });
                             }
                         }
                     }
@@ -957,8 +997,8 @@ pub fn main(args: &[String]) -> i32 {
         )
     } else {
         (
-            "same histories with a lifecycle-heavy event mix; non-trivial = an allocation was created and a worker connected; distinct = distinct generated history",
-            json!({"allocations_created": 2000, "worker_connects": 2000, "worker_losses": 1000, "transition.0->running": 300, "transition.1->finished": 100, "queue_removals_with_active_allocations": 30, "running_allocations_with_workers_checked": 1000}),
+            "same histories with a lifecycle-heavy event mix, a fifth of them with a status-error storm (9-32 consecutive failing status refreshes - the whole query or single allocations - while allocations are queued / running, an occasional good report in between); non-trivial = an allocation was created and a worker connected; distinct = distinct generated history",
+            json!({"allocations_created": 2000, "worker_connects": 2000, "worker_losses": 1000, "transition.0->running": 300, "transition.1->finished": 100, "queue_removals_with_active_allocations": 30, "running_allocations_with_workers_checked": 1000, "ended_by_status_errors.while_queued": 15, "ended_by_status_errors.while_running": 10}),
         )
     };
     let summary = json!({
